@@ -255,12 +255,53 @@ def run(ctx):
             detail["model"] = f"(not evaluated: {e})"
         ctx.violation("correspondence", f"model-vs-impl-{kept[i]['kind']}", f"the Coq model of {kept[i]['kind']} and the implementation answer differently", kept[i], detail=detail)
     ctx.traces = len(glits)
+    operator_level(ctx)
+
+
+class _OpsCtx:
+    """The structural mutations are reached by users through the mutation OPERATORS (mutation.py is one of C16's files):
+    the same operator objects applied repeatedly, as the solver does.  The sequences, the snapshot machinery and the
+    per-index contracts are C10's (vlib/opskit.py); here only the clauses that are C16's are kept: topological search =
+    the given individual plus exactly one zero-initialised layer (prefix kept), layer removal = a non-empty proper suffix
+    dropped (values of the remaining layers kept), untouched individuals returned as they are.  Everything else
+    (speciation, selection, model correspondence) is C10's business and is not reported here."""
+
+    KEEP = ("mutation-topo", "mutation-removal", "mutation-writeback", "exception-topo", "exception-removal")
+
+    def __init__(self, ctx):
+        object.__setattr__(self, "_ctx", ctx)
+
+    def __getattr__(self, name):
+        return getattr(self._ctx, name)
+
+    def __setattr__(self, name, value):
+        setattr(self._ctx, name, value)
+
+    def violation(self, kind, key, what, case=None, detail=None):
+        if kind == "oracle" and key.startswith(self.KEEP):
+            self._ctx.violation(kind, "operator-" + key, what, {"kind": "operator_sequence", "spec": case}, detail)
+
+
+def operator_level(ctx, specs=None):
+    from vlib import opskit
+
+    if specs is None:
+        specs = opskit.persistent_specs(ctx.rng, ctx.n(20, 200)) + opskit.mutation_after_speciation_specs(ctx.rng, ctx.n(8, 80))
+    opskit.drive(_OpsCtx(ctx), "C16ops", specs, opskit.oracle_c10, None, "check_case", "model-vs-impl")
+    ctx.notes["operator_level"] = "topological search / layer removal applied through persistent operator objects (sequences and per-index contracts of vlib/opskit.py); only the structural-mutation clauses are reported under C16"
 
 
 def replay(ctx, payload):
     if translate.is_link_replay(payload) and not payload.get("failing_input"):
         return translate.replay(ctx, payload, "C16")  # a replay file written for a broken translation tie
     c = payload.get("case") or payload.get("failing_input")
+    if c.get("kind") == "operator_sequence":
+        spec = {k: v for k, v in c["spec"].items() if k != "failing_step"}
+        operator_level(ctx, [spec])
+        for v in ctx.violations:
+            print("oracle:", v["what"])
+        print("impl-vs-property:", "FAILS" if ctx.violations else "ok")
+        return
     g = do_case(ctx, c)
     for v in ctx.violations:
         print("oracle:", v["what"])
